@@ -6,6 +6,7 @@ package main
 import (
 	"encoding/json"
 	"fmt"
+	"math"
 	"math/rand"
 	"sort"
 	"strings"
@@ -78,7 +79,11 @@ func runC10(seed int64, tier string, outDir string) *result {
 			if kind == c09EntryHash && nheads != 1 {
 				continue
 			}
+			ns := []int{math.MaxInt} // "no limit" sentinels are legal limits too
 			for n := 0; n <= maxN; n++ {
+				ns = append(ns, n)
+			}
+			for _, n := range ns {
 				if !thorough && size > 12 && n > 6 && n < size-3 && rng.Intn(2) == 0 {
 					continue // thin out the middle of long logs in the quick tier
 				}
@@ -171,6 +176,11 @@ func runC10(seed int64, tier string, outDir string) *result {
 	}
 	llist := &caseList{name: "loader_cases", typ: "loader_case", checker: c09Checker()}
 	for _, ld := range loads {
+		if ld.n > 1<<30 {
+			// "no limit" sentinels: checked by the monitors only (the executable model turns the limit into a
+			// unary number; the theorems cover every n)
+			continue
+		}
 		if ld.run.hung || ld.run.skipped {
 			continue
 		}
